@@ -140,4 +140,43 @@ theorem getValueLD_integer_accuracy (sf : Mag) (hne : sf ≠ []) (hint : Mag.isI
             exact ⟨hrel, RelN.abs_err ld (hval0 sf) hrel⟩
       · cases h
 
+theorem normal_of_ge_one (F : FltTy) (hemin : F.emin ≤ 0) (q : ℚ) (h : 1 ≤ q) : (2 : ℚ) ^ F.emin ≤ |q| := by
+  have h1 : (2 : ℚ) ^ F.emin ≤ (2 : ℚ) ^ (0 : Int) := Chrono.zpow_le_of_le hemin
+  have h2 : (2 : ℚ) ^ (0 : Int) = 1 := by simp
+  rw [abs_of_pos (by linarith)]
+  linarith
+
+/-- **The same for `float` and `double` targets** (and any format with `emin ≤ 0`): the long-double pipeline value `x` carries
+at most `Σ(eᵢ+1)` long-double roundings of `N`, and the returned value is `x` rounded ONCE more, in the target format:
+`v = N·ρ·(1+δ)` with `(1−2^-64)^k ≤ ρ ≤ (1+2^-64)^k` and `|δ| ≤ 2^-prec(T)`. -/
+theorem getValue_integer_accuracy (f : FltTy) (hemin : f.emin ≤ 0) (sf : Mag) (hne : sf ≠ [])
+    (hint : Mag.isIntegerMag sf = true) (hok : Mag.PrimesOK sf) (v : ℚ) (h : getValueResultFlt f sf = (.ok, Flt.fin v)) :
+    ∃ x : ℚ, RelN ld (intMagRoundings sf) (intMagValue sf) x ∧ 1 ≤ x ∧ RelN f 1 x v := by
+  unfold getValueResultFlt at h
+  simp only [hne, if_false] at h
+  split at h
+  · cases h
+  · rename_i hany
+    split at h
+    · cases h
+    · rename_i w hw
+      have hany' : ((sf.map fun a => basePowerValueF (match a.1 with | .prime p => Flt.ofInt ld (IntTy.u64.wrap p) | .pi => piLD) a.2.num a.2.den).any (·.isNone)) = false := by
+        exact (Bool.not_eq_true _).mp hany
+      have h1 : ApproxF 0 1 (Flt.fin 1) := ⟨RelN.refl ld 1, le_refl _⟩
+      have hprod := powersProduct_ApproxF sf hint hok (Flt.fin 1) 1 0 h1 hany' w hw
+      simp only [Nat.zero_add, one_mul] at hprod
+      split at h
+      · split at h
+        · cases h
+        · simp only [Prod.mk.injEq, true_and] at h
+          cases w with
+          | nan => exact hprod.elim
+          | inf s => simp [Flt.cast] at h
+          | fin x =>
+            have hx : RelN ld (intMagRoundings sf) (intMagValue sf) x ∧ 1 ≤ x := hprod
+            have hcast : rne f x = Flt.fin v := by simpa [Flt.cast] using h
+            have hxne : x ≠ 0 := by intro h0; rw [h0] at hx; norm_num at hx
+            exact ⟨x, hx.1, hx.2, rne_RelN f x hxne (normal_of_ge_one f hemin x hx.2) v hcast⟩
+      · cases h
+
 end Au
